@@ -166,6 +166,15 @@ def chk_refusals(seed_i, ei, version):
     must_raise(lambda: wo.by_path("M/0'"), "hardened-by_path")
     must_raise(lambda: wo.by_path("M/0/1'/2"), "hardened-by_path")
     must_raise(lambda: wo.master.derive_path([0, H + 1]), "hardened-derive_path")
+    # hardened children through the BULK entry point, on the root and on a derived node; a window that straddles 2^31 may
+    # serve its normal part only if it then raises or stops - it must never hand out a node with a hardened child number
+    for holder, hn in ((wo.master, "master"), (child, "child")):
+        for iv in ((H, H + 2), (H + 5, H + 6), (2**32 - 2, 2**32)):
+            must_raise(lambda: holder.generate_children(iv), "hardened-generate_children")
+            must_raise(lambda: holder.generate_children(interval=iv), "hardened-generate_children")
+        st, out = attempt(lambda: holder.generate_children((H - 2, H + 2)))
+        if st == "ok" and any(getattr(c, "index", 0) >= H for c in out):
+            viols.append(V("%s:hardened-generate_children:%s:returned" % (P, name), "generate_children((2^31-2, 2^31+2)) on the watch-only %s returned hardened children" % hn))
     must_raise(lambda: wo.generate(0, (0, 1)), "generate")
     must_raise(lambda: wo.bip44(0, (0, 1)), "bip44")
     must_raise(lambda: wo.bip85_data(), "bip85_data")
@@ -307,6 +316,38 @@ class FullAndWatchOnlyHistories:
         return {"canon": hist, "viols": viols, "label": label}
 
 
+def chk_corner(k_hex, chain_hex, i, version):
+    """one watch-only derivation step whose computed intermediates sit on a corner: watch-only == full == reference"""
+    from btc_hd_wallet.paper_wallet import PaperWallet
+    name, kind, net, bip = hd.SLIP132[version]
+    testnet = net == "test"
+    node = hd.node_from_priv(int(k_hex, 16), bytes.fromhex(chain_hex), 3, H + 2, b"\x01\x02\x03\x04")
+    wo = PaperWallet.from_extended_key(hd.xpub(node, version))
+    full = PaperWallet.from_extended_key(hd.xprv(node, hd.version_for("prv", testnet, bip)))
+    refn = hd.derive(hd.neuter(node), [i])
+    refg = hd.derive(refn, [1])
+    viols = []
+    for label, f in (("by_path", lambda w: w.by_path("M/%d" % i)), ("ckd", lambda w: w.master.ckd(i))):
+        st, a = attempt(lambda: public_view(wo, f(wo)))
+        st2, b = attempt(lambda: public_view(full, f(full)))
+        if st != "ok" or st2 != "ok":
+            viols.append(V("%s:corner:%s:raised" % (P, label), "%s(%d) below %s: watch-only %s / full %s" % (label, i, name, a if st != "ok" else "ok", b if st2 != "ok" else "ok")))
+            continue
+        rv = ref_view(refn, testnet, [i], None)
+        bad = sorted(k for k in rv if a.get(k) != rv[k])
+        if bad:
+            viols.append(V("%s:corner:watch-only-vs-reference:%s-differs" % (P, "+".join(bad)), "%s(%d) below %s" % (label, i, name), {k: a[k] for k in bad}, {k: rv[k] for k in bad}))
+        elif a != b:
+            diff = sorted(k for k in a if a[k] != b[k])
+            viols.append(V("%s:corner:watch-only-vs-full:%s-differs" % (P, "+".join(diff)), "%s(%d) below %s" % (label, i, name)))
+    # the cornered child as a parent
+    st, g = attempt(lambda: public_view(wo, wo.master.ckd(i).ckd(1)))
+    rg = ref_view(refg, testnet, [i, 1], None)
+    if st != "ok" or any(g.get(k) != rg[k] for k in rg):
+        viols.append(V("%s:corner:grandchild:differs" % P, "ckd(%d).ckd(1) below %s: %s" % (i, name, g if st != "ok" else "fields differ")))
+    return viols
+
+
 def execute(case):
     k = case.get("k")
     if "hist" in case and case.get("layer", "").startswith("full-and-watch-only-histories"):
@@ -314,6 +355,11 @@ def execute(case):
         for v in r["viols"]:
             v["case"] = case
         return R(r["label"], viols=r["viols"])
+    if k == "corner":
+        vs = chk_corner(case["key"], case["chain"], case["i"], case["v"])
+        for v in vs:
+            v["case"] = case
+        return R("violation" if vs else "corner-state-equal", viols=vs, n=3)
     if k == "refusals":
         vs, n = chk_refusals(case["seed"], case["export"], case["version"])
         return R("violation" if vs else "refusals-and-secrecy-ok", viols=vs, extra=n)
@@ -360,6 +406,31 @@ def run(ctx):
     ctx.samples[:] = ctx.samples[:3] + ctx.samples[-3:]
     cases = [{"k": "refusals", "seed": s, "export": ei, "version": v} for s in range(ns) for ei in range(len(EXPORTS)) for v in PUBV]
     agg = ctx.product("refusals-and-object-graph", cases, execute, chunk=1)
+    # corner classes of the computed intermediates of ONE public derivation step (vf/corners.py): IL, IR, parent x / y, CHILD x / y,
+    # fingerprint - every byte position 00 / ff, every first / last byte value; versions rotate through the six public prefixes
+    from .. import corners as cm
+    from ..ref import enc
+    from ..core import HarnessError
+    base = int.from_bytes(enc.sha256(b"C14-corner-base-%d" % ctx.seed), "big") % (hd.N - 10**6) + 1
+
+    def cands():
+        for n_, (k_, pt) in enumerate(cm.scalar_walk(base, secp)):
+            chain = enc.sha256(b"C14-chain-%d" % n_)
+            i = int.from_bytes(enc.sha256(b"C14-idx-%d" % n_)[:4], "big") % H
+            sec_ = secp.sec(pt)
+            I_ = enc.hmac_sha512(chain, sec_ + i.to_bytes(4, "big"))
+            il = int.from_bytes(I_[:32], "big")
+            if il >= hd.N or (il + k_) % hd.N == 0:
+                continue
+            cpt = secp.pub((il + k_) % hd.N)
+            yield ("%x" % k_, chain.hex(), i, PUBV[n_ % len(PUBV)]), {"IL": I_[:32], "IR": I_[32:], "x": sec_[1:], "y": pt[1].to_bytes(32, "big"),
+                                                                       "cx": cpt[0].to_bytes(32, "big"), "cy": cpt[1].to_bytes(32, "big"),
+                                                                       "fp": enc.hash160(sec_)[:4], "cfp": enc.hash160(secp.sec(cpt))[:4]}
+    kept, st = cm.cover(cands(), {"IL": 32, "IR": 32, "x": 32, "y": 32, "cx": 32, "cy": 32, "fp": 4, "cfp": 4}, 60000, pairs=ctx.thorough)
+    ctx.extra["intermediate_corner_classes"] = st
+    if st["covered"] != st["classes"]:
+        raise HarnessError("corner cover incomplete: %r" % (st,))
+    ctx.product("intermediate-corners", [{"k": "corner", "key": c[0], "chain": c[1], "i": c[2], "v": c[3]} for c, _ in kept], execute, chunk=8)
     bfs(ctx, "requests-on-one-watch-only-wallet", WatchOnlyHistories(), 3 if ctx.thorough else 2, chunk=2)
     bfs(ctx, "full-and-watch-only-histories", FullAndWatchOnlyHistories(), 3 if ctx.thorough else 2, chunk=2)
     from ..bfs import long_histories
